@@ -7,6 +7,7 @@ the expected cell of every child, the attribute arrays and whether a diagnostic 
 column; pinned by a snapshot test) is matched semantically: observed = Layout.tla under rmhAt = "column" and different from
 rmhAt = "row".
 """
+import json
 import random
 
 from vlib import build_harness, log, ToolError, translate, tlc, tlc_must_pass
@@ -101,6 +102,36 @@ def run(chk):
                 chk.known_finding("F2", "rowMinimumHeight is recorded at the index of the child's column instead of its row")
                 continue
             chk.violation("layout differs: %s" % "; ".join(d[:3]), {"qml": qml, "ui": run_["ui"], "differences": d, "expected": exp, "observed": obs})
+    # values far outside the range Layout.tla admits (IndexOk: 0..MaxIndex, counts 1..Unlimited): an accepted layout with ONE explicit count / row / column
+    # replaced by the same value plus or minus a multiple of 2^32 (TLC's integers end at 2^31) must be diagnosed, whatever the low bits look like
+    import random
+    r = random.Random(chk.seed)
+    acc = [c for i, c in enumerate(cases) if not c["expect"]["err"] and not out[i]["generate"].get("n_errors") and c["layout"]["kind"] in ("grid", "form")]
+    wide_reqs, wide_meta = [], []
+    for c in r.sample(acc, min(len(acc), 150 if quick else 1500)):
+        l = c["layout"]
+        spots = [("count", None)] if l["kind"] == "grid" and l["count"] else []
+        spots += [(key, i) for i, k in enumerate(l["kids"]) for key in ("row", "col") if k[key] != NONE]
+        if not spots:
+            continue
+        key, i = r.choice(spots)
+        for off in (2 ** 32, 2 ** 33, -2 ** 32, 2 ** 40, 2 ** 31 + 2 ** 32):
+            l2 = json.loads(json.dumps(l))
+            if i is None:
+                l2["count"] = l2["count"] + off
+            else:
+                l2["kids"][i][key] = l2["kids"][i][key] + off
+            wide_reqs.append({"id": len(wide_reqs), "src": render(l2), "type_name": "Doc", "modes": ["generate"]})
+            wide_meta.append((key, off))
+    wout = translate(wide_reqs)
+    for q, (key, off) in zip(wide_reqs, wide_meta):
+        run_ = wout[q["id"]]["generate"]
+        chk.count({"wide": q["src"]}, nontrivial=True)
+        if run_.get("panic") or run_.get("timeout") or run_.get("crash"):
+            continue
+        if not run_.get("n_errors"):
+            chk.violation("a %s shifted by %d (far outside 0..65535) is accepted without a diagnostic" % (key, off), {"qml": q["src"], "ui": run_.get("ui")})
+    chk.cov["out_of_range_variants"] = len(wide_reqs)
     chk.cov["programs"] = len(cases)
     chk.cov["traces_validated_against_impl"] = len(cases)
     chk.sample({"qml": render(cases[len(cases) // 3]["layout"]), "expected": cases[len(cases) // 3]["expect"]})
